@@ -3,7 +3,6 @@
 
 use std::borrow::Cow;
 
-use identity_did::CoreDID;
 use identity_did::DIDUrl;
 use identity_did::RelativeDIDUrl;
 use identity_did::DID;
@@ -33,7 +32,8 @@ impl DIDUrlQuery<'_> {
   /// Extract the DID portion of the query if it exists.
   fn did_str(&self) -> Option<&str> {
     let query: &str = self.0.as_ref();
-    if !query.starts_with(CoreDID::SCHEME) {
+    // Only `did:` introduces a DID; a bare fragment such as `didcomm-key` is not one.
+    if !query.starts_with("did:") {
       return None;
     }
 
@@ -49,7 +49,7 @@ impl DIDUrlQuery<'_> {
   /// Extract the query fragment if it exists.
   fn fragment(&self) -> Option<&str> {
     let query: &str = self.0.as_ref();
-    let fragment_maybe: Option<&str> = if query.starts_with(CoreDID::SCHEME) {
+    let fragment_maybe: Option<&str> = if query.starts_with("did:") {
       // Extract the fragment from a full DID-Url-like string.
       query.rfind('#').and_then(|index| query.get(index + 1..))
     } else if let Some(fragment_delimiter_index) = query.rfind('#') {
